@@ -116,6 +116,39 @@ def run_md_reuse(case):
     return outs
 
 
+def run_settings_values(case, hist_root):
+    """publish calls that reuse ONE docutils settings object S (and S.copy(), a shallow copy) while the myst_* VALUES on it
+    are changed between the calls with setattr; one observation per step."""
+    import io as _io
+
+    from docutils.core import publish_doctree
+    from docutils.frontend import OptionParser
+    from docutils.readers.standalone import Reader
+    from docutils.writers.null import Writer
+
+    from gen.c01_run import subst, write_files
+    from myst_parser.parsers.docutils_ import Parser
+    root = os.path.join(hist_root, "sv")
+    os.makedirs(root, exist_ok=True)
+    write_files(root, {"files": case.get("files", {}), "name": "index.md"})
+    S = OptionParser(components=(Parser, Reader, Writer)).get_default_values()
+    S.report_level = 2
+    S.halt_level = 5
+    outs = []
+    for step in case["steps"]:
+        for k, v in subst(dict(step["values"]), root).items():
+            setattr(S, k, set(v) if k in ("myst_enable_extensions", "myst_fence_as_directive") and isinstance(v, list) else v)
+        target = S.copy() if step.get("copy") else S
+        ws = _io.StringIO()
+        target.warning_stream = ws
+        try:
+            doc = publish_doctree(step["text"], source_path=os.path.join(root, "index.md"), parser=Parser(), settings=target)
+            outs.append({"doc": mask(doc.pformat(), root), "warn": mask(ws.getvalue(), root)})
+        except BaseException as e:  # noqa: BLE001
+            outs.append({"doc": f"EXC:{type(e).__name__}:{e}"[:200], "warn": ""})
+    return outs
+
+
 def run_shared_settings(case):
     """Several docutils publish calls that share ONE settings object (as Sphinx does for all documents of a process and
     as docutils users may): returns one observation per (text) of the case."""
@@ -200,6 +233,8 @@ def run_history(cases, timeout=120):
                 out_initial = dump_cells()
             else:
                 out_initial = None
+            if cases and cases[0].get("kind") == "settings_values":
+                return run_settings_values(cases[0], hist_root)
             if cases and cases[0].get("kind") in ("md_reuse", "shared_settings"):
                 # one case = one whole history at the level of a re-used parser object / a shared settings object
                 fn = run_md_reuse if cases[0]["kind"] == "md_reuse" else run_shared_settings
